@@ -543,6 +543,28 @@ def run_shard(spec, ctx):
             judge_undefined_macro(ctx, src2, name)
         if j % 3 == 0:
             judge_unencodable(ctx, rng)
+        if j % 4 == 1:
+            # two SOURCES of one process define a macro of the same name with
+            # another body and call it with the same arguments: each source
+            # assembles to its own definition
+            import copy as _copy
+            m1 = progs.gen_macro(rng)
+            progs.DEFINED.clear()
+            m2 = _copy.deepcopy(m1)
+            extra = progs.plain_simple(rng)
+            if rng.random() < 0.5:
+                m2[3].append(extra)
+            else:
+                m2[3].insert(0, extra)
+            for mm in (m1, m2, m1):
+                a2 = [['op', 'OP_TRUE'], mm]
+                try:
+                    ref2 = asm.assemble_program(a2)
+                except asm.AsmError:
+                    break
+                src2, feats2 = render.render(a2, rng, render.CANON)
+                ctx.count('same_macro_name_in_later_source')
+                judge_source(ctx, src2, ref2, feats2, a2, 'canon')
         for m in mine:
             if m not in earlier_macros:
                 earlier_macros.append(m)
